@@ -169,6 +169,30 @@ MALFORMED = ["(1+2", "1+2)", "((1)", "nosuchfn(1)", "abs()", "abs(1, 2)", "pow(2
              "min()", "mix(1,2)", "if(1,2)", "select(5, 1, 2)", "eq(1)", "1 lt", "and 1", "sin", "abs 1", "1,,2", "(,)", "addv(1,2,3)",
              "$p + 1", "${q}", "divmod(1)", "r2p(1)", "randint(5, 1)", "clamp(1, 5, 2)", "join()", "split('a')", "trim(1)", "'unterminated"]
 
+# every function with a fixed number of arguments, called with one too few, one and two too many (written out, and with the surplus
+# hidden in a two-valued sub-expression)
+FIXED_ARITY = {0: ["random"],
+               1: "abs ceil floor fract sign sqrt log exp sin cos tan asin acos atan not".split(),
+               2: "divmod pow randint r2p p2r eq ne lt le gt ge and or xor swap".split(),
+               3: "clamp mix if".split()}
+
+
+def arity_malformed():
+    out = []
+    vals = ["1", "2", "3", "4", "5"]
+    for n, names in FIXED_ARITY.items():
+        for f in names:
+            for k in (n - 1, n + 1, n + 2):
+                if k < 0:
+                    continue
+                out.append("%s(%s)" % (f, ", ".join(vals[:k])))
+                if k >= 2:
+                    out.append("%s(%s)" % (f, ", ".join(["swap(1, 2)"] + vals[2:k])))
+    return out
+
+
+MALFORMED += [e for e in arity_malformed() if e not in MALFORMED]
+
 CONTEXTS = ["text", "text", "text", "geom", "var", "comment", "loop", "if", "for"]
 
 
@@ -365,7 +389,8 @@ def check_case(ctx, case):
             r = ctx.run(doc, dict(auto=False))
             acc.nontriv(core.chash(e, ck, "malformed"), ["malformed", "ctx." + ck])
             if r.ok:
-                acc.violation("malformed-accepted", "malformed-accepted:%s" % ck, dict(family="malformed", expr=e), observed=core.trunc(r.out, 400), expected="Err",
+                m_ = re.match(r"[a-z0-9_]+(?=\()", e)
+                acc.violation("malformed-accepted", "malformed-accepted:%s/%s" % (ck, m_.group(0) if m_ else "syntax"), dict(family="malformed", expr=e), observed=core.trunc(r.out, 400), expected="Err",
                               what="malformed expression {{%s}} yielded a value in context %s" % (e, ck))
     elif fam == "once":
         check_once(ctx, case)
